@@ -47,28 +47,19 @@ Fixpoint obss_eqb (xs ys : list obs) : bool :=
   | _, _ => false
   end.
 
-(* ---- the guard (G1) followed along the model run: one flag per ORun ------------------------- *)
-Fixpoint guards (n : nat) (m : mstate) (g : bool) (ops : list op) : list bool :=
-  match ops with
-  | [] => []
-  | o :: r =>
-      let g' := g && guard_op n m o in
-      let (m', ob) := stepM n m o in
-      (match ob with Some _ => [g'] | None => [] end) ++ guards n m' g' r
-  end.
-
-(* outcomes that S constrains: inside the guard and S's result is not undefined-function *)
-Fixpoint bad_count (gs : list bool) (ss xs : list obs) : nat :=
-  match gs, ss, xs with
-  | g :: gs', s :: ss', x :: xs' =>
-      (if g && ((comparable (fst s) && negb (obs_eqb s x)) || (negb (is_val (fst s)) && is_val (fst x))) then 1 else 0)
-      + bad_count gs' ss' xs'
-  | _, _, _ => 0
-  end.
-Fixpoint constrained (gs : list bool) (ss : list obs) : nat :=
-  match gs, ss with
-  | g :: gs', s :: ss' => (if g && comparable (fst s) then 1 else 0) + constrained gs' ss'
+(* outcomes that S constrains: S's result is not undefined-function (there is no guard on programs or histories
+   any more: repo_fixes/C08-3, C08-4) *)
+Fixpoint bad_count (ss xs : list obs) : nat :=
+  match ss, xs with
+  | s :: ss', x :: xs' =>
+      (if (comparable (fst s) && negb (obs_eqb s x)) || (negb (is_val (fst s)) && is_val (fst x)) then 1 else 0)
+      + bad_count ss' xs'
   | _, _ => 0
+  end.
+Fixpoint constrained (ss : list obs) : nat :=
+  match ss with
+  | s :: ss' => (if comparable (fst s) then 1 else 0) + constrained ss'
+  | _ => 0
   end.
 
 (* ---- well-formedness of what the harness sent: list identities are unique --------------------- *)
@@ -91,31 +82,39 @@ Fixpoint explained (ms ss xs : list obs) : bool :=
   | m :: ms', s :: ss', x :: xs' => (obs_eqb m x || obs_eqb s x) && explained ms' ss' xs'
   | _, _, _ => false
   end.
+(* exactness self-check: under the lookup times of M's run (pols_run) the specification runL must give exactly
+   M's outcomes wherever it is binding (theorem history_exact) *)
+Fixpoint exact_bad (ls ms : list obs) : nat :=
+  match ls, ms with
+  | [], [] => 0
+  | l :: ls', m :: ms' => (if binding (fst l) && negb (obs_eqb l m) then 1 else 0) + exact_bad ls' ms'
+  | _, _ => 1
+  end.
 (* 0 ok.  1: some observed outcome is neither M's nor S's, and the observed outcomes do not violate S where S
    constrains them (or the case is malformed).  2: some observed outcome is neither M's nor S's and an
-   observed outcome differs from S inside the guard.  3: self-check: the observed outcomes are explained but
-   M itself differs from S inside the guard (the refinement theorem would be false). *)
+   observed outcome differs from S where S is binding.  3: self-check: the observed outcomes are explained but
+   M itself differs from S where S is binding, or from runL under its own lookup times (a refinement theorem
+   would be false). *)
 Definition check_case (c : case) : N :=
   let ops := fst c in
   let m := runM FUEL minit ops in
   let s := runS FUEL sinit ops in
-  let gs := guards FUEL minit true ops in
+  let l := runL FUEL sinit ops (pols_run FUEL minit ops) in
   if negb (wf_case c) then 1%N
-  else if explained m s (snd c) then (if Nat.eqb (bad_count gs s m) 0 then 0%N else 3%N)
-  else if Nat.eqb (bad_count gs s (snd c)) 0 then 1%N else 2%N.
+  else if explained m s (snd c) then (if Nat.eqb (bad_count s m) 0 && Nat.eqb (exact_bad l m) 0 then 0%N else 3%N)
+  else if Nat.eqb (bad_count s (snd c)) 0 then 1%N else 2%N.
 Fixpoint check_all_from (i : N) (cs : list case) : list (N * N) :=
   match cs with
   | [] => []
   | c :: cs' => let r := check_case c in (if N.eqb r 0 then [] else [(i, r)]) ++ check_all_from (N.succ i) cs'
   end.
 Definition check_all := check_all_from 0%N.
-(* how many observed outcomes S constrained, and how many were outside (known-finding region) *)
+(* how many observed outcomes S constrained, and how many it did not (S says undefined-function) *)
 Definition guard_count (cs : list case) : N :=
-  N.of_nat (fold_left (fun a c => a + constrained (guards FUEL minit true (fst c)) (runS FUEL sinit (fst c))) cs 0).
+  N.of_nat (fold_left (fun a c => a + constrained (runS FUEL sinit (fst c))) cs 0).
 Definition outside_count (cs : list case) : N :=
-  N.of_nat (fold_left (fun a c => a + (List.length (snd c) - constrained (guards FUEL minit true (fst c)) (runS FUEL sinit (fst c)))) cs 0).
-(* observed outcomes that differ from S where S is binding, guarded or not: outside the guard these are the
-   manifestations of the known finding (inside they make code 2) *)
+  N.of_nat (fold_left (fun a c => a + (List.length (snd c) - constrained (runS FUEL sinit (fst c)))) cs 0).
+(* observed outcomes that differ from S where S is binding (they make code 2) *)
 Fixpoint dev_count (ss xs : list obs) : nat :=
   match ss, xs with
   | s :: ss', x :: xs' => (if comparable (fst s) && negb (obs_eqb s x) then 1 else 0) + dev_count ss' xs'
@@ -123,3 +122,13 @@ Fixpoint dev_count (ss xs : list obs) : nat :=
   end.
 Definition deviation_count (cs : list case) : N :=
   N.of_nat (fold_left (fun a c => a + dev_count (runS FUEL sinit (fst c)) (snd c)) cs 0).
+
+(* outcomes for which the lookup time of an undefined operator mattered: runL under M's lookup times differs from
+   runS (lookup always before the arguments) *)
+Fixpoint diff_count (ss ls : list obs) : nat :=
+  match ss, ls with
+  | s :: ss', l :: ls' => (if obs_eqb s l then 0 else 1) + diff_count ss' ls'
+  | _, _ => 0
+  end.
+Definition late_count (cs : list case) : N :=
+  N.of_nat (fold_left (fun a c => a + diff_count (runS FUEL sinit (fst c)) (runL FUEL sinit (fst c) (pols_run FUEL minit (fst c)))) cs 0).
